@@ -138,7 +138,7 @@ def _template_correspondence(ctx):
 # ------------------------------------------------------------------ payload oracle
 PAY = ['<x9 y9="1">', '"><x9>', "' z9='1", '" z9="1', "<script>x9()</script>", "&lt;x9&gt;", "<!--x9-->", "</p><x9>", "<x9", "x9>", "&#60;x9&#62;",
        "&#x3c;x9 y9&#x3d;1&#x3e;", "&amp;lt;x9&amp;gt;"]
-PAYURL = ["javascript:x9()", "JAVASCRIPT:x9", "vbscript:x9", "data:text/html,<x9>", "file:///x9", "javascript&colon;x9", "javascript&#58;x9",
+PAYURL = ["javascript:x9()", "JAVASCRIPT:x9", "vbscript:x9", "data:text/html,<x9>", "file:///x9", "javascript:void(0)", "javascript:void(1)", "data:image/svg+xml,<x9>", "file:///srv/x9", "javascript&colon;x9", "javascript&#58;x9",
           "javascript&amp;colon;x9", "&#106;avascript:x9", "java&#9;script:x9", "jav&#x61;script&amp;#58;x9",
           # what a browser removes before it looks at the scheme: leading C0 controls and spaces, tabs and newlines anywhere
           "\tjavascript:x9", "java\tscript:x9", "\x01javascript:x9", "\x0cjavascript:x9", "\x1fvbscript:x9", "javascript\t:x9"]
@@ -146,11 +146,15 @@ PAYURL = ["javascript:x9()", "JAVASCRIPT:x9", "vbscript:x9", "data:text/html,<x9
 ALLOWED_TAGS = None
 
 
+ALLOW_PREFIXES = ["javascript:void(0)", "data:image/svg+xml;", "FILE:///srv/"]     # what the caller of one configuration allowed explicitly
+
+
 class Reader(HTMLParser):
-    def __init__(self):
+    def __init__(self, allowed=()):
         super().__init__(convert_charrefs=True)
         self.tags = []
         self.bad = []
+        self.allowed = tuple(a.lower() for a in allowed)
 
     def handle_starttag(self, tag, attrs):
         self.tags.append(tag)
@@ -164,6 +168,8 @@ class Reader(HTMLParser):
                 vv2 = re.sub(r"[\t\n\r]", "", vv)
                 for scheme in ("javascript:", "vbscript:", "file:", "data:"):
                     if vv2.startswith(scheme) and not vv2.startswith(("data:image/gif;", "data:image/png;", "data:image/jpeg;", "data:image/webp;")):
+                        if self.allowed and v.lower().startswith(self.allowed):
+                            continue      # exactly what the caller allowed: the destination begins with one of the listed prefixes
                         self.bad.append(("script-url", tag, k, v))
         if tag == "script":
             self.bad.append(("element", tag))
@@ -219,6 +225,9 @@ def payload_docs(r, n):
                 "```{figure} %s\n:%s: %s\n\ncaption %s\n\nlegend %s\n```\n" % (r.choice(["a.png", url]), opt, pay, pay, pay),
                 "```{image} a.png\n:target: %s\n:width: 100%s\n:height: 5%s\n```\n" % (url, pay, pay),
                 "```{toc} %s\n:%s: %s\n```\n\n# h %s\n" % (pay, opt, pay, pay), "```{include} %s\n```\n" % pay,
+                # a table of contents that is really rendered (valid options): the entries show the heading texts once more
+                "```{toc}\n```\n\n# h %s\n\n## %s tail\n" % (pay, pay), ".. toc::\n   :max-level: 3\n\n# a %s\n\nb %s\n===\n" % (pay, pay),
+                "# first %s\n\n```{toc} Contents\n:min-level: 1\n```\n\n## `%s` and *%s*\n" % (pay, pay, pay), "```{toc}\n```\n\n# [%s](%s)\n" % (pay, url),
                 ".. note:: %s\n   :class: %s\n\n   body %s\n" % (pay, pay, pay), ".. image:: %s\n   :alt: %s\n" % (url, pay),
             ])
 
@@ -233,7 +242,27 @@ def converters(m):
         # the shortcut mistune.markdown() with its cache of converters, after calls by a caller who allowed everything
         ("markdown()-after-permissive-calls", _After(m, {})),
         ("markdown(plugins)-after-permissive-calls", _After(m, {"plugins": ["table", "footnotes", "url", "math"]})),
+        # the table of contents of the TOC hook, rendered next to the document
+        ("html-toc-hook", _WithToc(m)),
+        # a caller who allowed some destinations by prefix: nothing else with a harmful scheme may pass
+        ("html-allow-prefixes", m.create_markdown(renderer=m.HTMLRenderer(allow_harmful_protocols=list(ALLOW_PREFIXES)), plugins=["url", "table"])),
+        ("html-allow-prefixes-tuple+rst", m.create_markdown(renderer=m.HTMLRenderer(allow_harmful_protocols=tuple(ALLOW_PREFIXES)), plugins=[RSTDirective([Image(), Figure()])])),
     ]
+
+
+class _WithToc:
+    """create_markdown() + add_toc_hook: the document followed by render_toc_ul of the collected items"""
+
+    def __init__(self, m):
+        from mistune.toc import add_toc_hook
+        self.m = m
+        self.md = m.create_markdown(plugins=["table", "footnotes"])
+        add_toc_hook(self.md, 1, 6)
+
+    def __call__(self, doc):
+        from mistune.toc import render_toc_ul
+        out, state = self.md.parse(doc)
+        return out + render_toc_ul(state.env.get("toc_items") or [])
 
 
 class _After:
@@ -259,7 +288,7 @@ def check_doc(name, md, doc, fails, escape=True, filectx=False):
             out = md(doc)
     except Exception:  # C01's business
         return False
-    rd = Reader()
+    rd = Reader(ALLOW_PREFIXES if "allow-prefixes" in name else ())
     try:
         rd.feed(out)
         rd.close()
